@@ -160,7 +160,22 @@ type job struct {
 	file string
 }
 
+// dischargeAll: proof obligations first (few at a time, so that wall-clock timeouts are not eaten by oversubscription),
+// then the reachability covers (3 s each, "not refuted" is the good answer, so they can share the cores freely).
 func dischargeAll(obs []*Obligation, outDir string, timeoutS int, requireAll bool, par int) {
+	var proofs, covers []*Obligation
+	for _, ob := range obs {
+		if ob.ExpectSat {
+			covers = append(covers, ob)
+		} else {
+			proofs = append(proofs, ob)
+		}
+	}
+	dischargeSome(proofs, outDir, timeoutS, requireAll, par)
+	dischargeSome(covers, outDir, timeoutS, requireAll, 3*par)
+}
+
+func dischargeSome(obs []*Obligation, outDir string, timeoutS int, requireAll bool, par int) {
 	_ = os.MkdirAll(outDir, 0o755)
 	var wg sync.WaitGroup
 	sem := make(chan struct{}, par)
